@@ -146,7 +146,7 @@ func (x *Exec) msgId(st *State, t types.Type, ref Term) Term {
 // newErr: a fresh non-nil error that is none of the sentinel kinds.
 func (x *Exec) newErr(st *State, what string) Val {
 	v := x.newErrAny(st, what)
-	for _, p := range []string{"isNotFound", "isDuplicate", "isClosed", "isTemporary"} {
+	for _, p := range []string{"isNotFound", "isDuplicate", "isClosed", "isTemporary", "isCtxErr"} {
 		st.assume(Not(x.errPred(p, v.T)))
 	}
 	return v
@@ -166,6 +166,7 @@ func nilErr() Val { return Val{K: VIface, T: IntT(0), GoT: errType} }
 
 func (x *Exec) errPred(p string, e Term) Term {
 	x.Reg.DeclareFun("err!"+p, []string{SInt}, SBool)
+	x.Reg.Axiom("errnil:"+p, "(not ("+sym("err!"+p)+" 0))") // the nil error is of no kind
 	return app(sym("err!"+p), SBool, e)
 }
 
